@@ -30,11 +30,8 @@ template <typename T>
 /// \ingroup cmath
 [[nodiscard]] constexpr auto signbit(float arg) noexcept -> bool
 {
-    if (is_constant_evaluated()) {
-        return detail::signbit_fallback(arg);
-    }
 #if __has_builtin(__builtin_signbit) and not defined(TETL_COMPILER_CLANG)
-    return __builtin_signbit(arg);
+    return __builtin_signbit(arg); // usable in constant expressions: +0.0 and -0.0, NaNs by sign bit
 #else
     return detail::signbit_fallback(arg);
 #endif
@@ -51,11 +48,8 @@ template <typename T>
 /// \ingroup cmath
 [[nodiscard]] constexpr auto signbit(double arg) noexcept -> bool
 {
-    if (is_constant_evaluated()) {
-        return detail::signbit_fallback(arg);
-    }
 #if __has_builtin(__builtin_signbit) and not defined(TETL_COMPILER_CLANG)
-    return __builtin_signbit(arg);
+    return __builtin_signbit(arg); // usable in constant expressions: +0.0 and -0.0, NaNs by sign bit
 #else
     return detail::signbit_fallback(arg);
 #endif
@@ -72,11 +66,8 @@ template <typename T>
 /// \ingroup cmath
 [[nodiscard]] constexpr auto signbit(long double arg) noexcept -> bool
 {
-    if (is_constant_evaluated()) {
-        return detail::signbit_fallback(arg);
-    }
 #if __has_builtin(__builtin_signbit) and not defined(TETL_COMPILER_CLANG)
-    return __builtin_signbit(arg);
+    return __builtin_signbit(arg); // usable in constant expressions: +0.0 and -0.0, NaNs by sign bit
 #else
     return detail::signbit_fallback(arg);
 #endif
